@@ -134,10 +134,12 @@ def noul(e):
         return k
     if k == "opasg":
         return f"{e[1]} {e[2]}= {noul(e[3])}"
+    if k == "freeze":
+        return f"(freeze {noul_atom(e[1])})"
     raise ValueError(k)
 
 
-EXT_NODES = ("dict", "index", "and", "or", "return", "break", "continue", "opasg")
+EXT_NODES = ("dict", "index", "and", "or", "return", "break", "continue", "opasg", "freeze")
 
 
 def has_ext(t):
@@ -248,7 +250,7 @@ def ddecl(e):
         return r
     if k in ("index", "and", "or"):
         return ddecl(e[1]) | ddecl(e[2])
-    if k == "return":
+    if k in ("return", "freeze"):
         return ddecl(e[1])
     if k in ("break", "continue"):
         return set()
@@ -399,6 +401,10 @@ def walk(e, B, DD, info, self_name=None):
         return B2, DD1
     if k == "return":
         return walk(e[1], B, DD, info)
+    if k == "freeze":
+        # Expr::Freeze inside a frozen expression: walked with the same environment, wrapper kept
+        # (the inner freeze runs again, against the run-time scope, when it is evaluated)
+        return walk(e[1], B, DD, info, self_name=self_name)
     if k in ("break", "continue"):
         return B, DD
     if k == "opasg":
@@ -610,12 +616,16 @@ class Gen:
                     body = ("if", ("chain", ("var", "p"), ((("var", "<"), ("int", 1)),)), ("int", self.r.randrange(0, 3)),
                             ("if", ("chain", ("int", 5), ((("var", "<"), ("var", "p")),)), ("int", 1), rec))
                 e = ("lam", ("p",), body)
+                if self.ext and self.r.random() < 0.35:
+                    e = ("freeze", e)
                 sc[x] = "fn1"
             else:
                 inner = {n: k for n, k in sc.items() if not n.startswith("#")}
                 inner.update({"p": "int", "q": "int", "#params": ("p", "q"), "#declared": set()})
                 inner[x] = "self"
                 e = ("lam", ("p", "q"), self.gint(inner, d - 1))
+                if self.ext and self.r.random() < 0.35:
+                    e = ("freeze", e)
                 sc[x] = "op"
             declared.add(x)
             return ("decl", x, e)
@@ -670,6 +680,51 @@ class Gen:
         d = self.pick([2, 3, 3, 4])
         body = self.gblock(sc, d) if self.r.random() < 0.7 else self.gint(sc, d)
         return ("lam", ps, body)
+
+
+def _V(n):
+    return ("var", n)
+
+
+def _bin(l, o, r):
+    return ("chain", l, ((_V(o), r),))
+
+
+# a declaration inside a condition / guard / iteratee / scrutinee is seen by what the construct runs next
+COND_SHAPES = {
+    "while": lambda n: ("seq", (("decl", "i", ("int", 0)), ("decl", "out", ("int", 0)),
+                                ("while", ("seq", (("decl", n, _bin(_V("i"), "*", ("int", 2))), _bin(_V("i"), "<", ("int", 3)))),
+                                 ("seq", (("asg", "out", _bin(_bin(_V("out"), "*", ("int", 10)), "+", _V(n))), ("asg", "i", _bin(_V("i"), "+", ("int", 1)))))),
+                                _V("out"))),
+    "if": lambda n: ("if", ("seq", (("decl", n, _bin(_V("x"), "+", ("int", 1))), _bin(_V(n), "<", ("int", 3)))),
+                     _bin(_V(n), "*", ("int", 2)), _bin(_V(n), "+", ("int", 10))),
+    "for-guard": lambda n: ("for", "j", ("list", (("int", 1), ("int", 2), ("int", 3))),
+                            (("guard", ("seq", (("decl", n, _bin(_V("j"), "*", _V("x"))), _bin(_V(n), "<", ("int", 5))))),), True, _V(n)),
+    "for-iteratee": lambda n: ("seq", (("decl", "w", ("for", "j", ("seq", (("decl", n, _bin(_V("x"), "+", ("int", 1))), ("list", (_V(n), ("int", 2))))),
+                                                   (), True, _bin(_V("j"), "+", _V(n)))), ("list", (_V("w"), _V(n))))),
+    "switch": lambda n: ("switch", ("seq", (("decl", n, _bin(_V("x"), "*", ("int", 2))), _V(n))),
+                         ((("pl", 0), _bin(_V(n), "+", ("int", 1))), (("pw",), _bin(_V(n), "+", ("int", 2))))),
+    "call-arg": lambda n: ("list", (("call", _V("len"), (("seq", (("decl", n, _V("x")), ("list", (_V(n), _V(n))))),)), _V(n))),
+}
+
+# `freeze` inside the frozen lambda: the inner freeze runs when it is evaluated and resolves the
+# enclosing locals / parameters / loop variables then; it must refuse to assign to them
+NESTED_FREEZE = {
+    "param": ("lam", ("x",), ("seq", (("decl", "g", ("freeze", ("lam", ("y",), _bin(_V("x"), "+", _V("y"))))),
+                                      ("asg", "x", _bin(_V("x"), "*", ("int", 100))), ("call", _V("g"), (("int", 1),))))),
+    "local": ("lam", ("x",), ("seq", (("decl", "c", _bin(_V("x"), "+", ("int", 1))), ("decl", "g", ("freeze", ("lam", (), _bin(_V("c"), "*", ("int", 2))))),
+                                      ("asg", "c", ("int", 50)), ("list", (("call", _V("g"), ()), _V("c")))))),
+    "refused": ("lam", ("x",), ("seq", (("decl", "c", _V("x")),
+                                        ("try", ("seq", (("decl", "inc", ("freeze", ("lam", (), ("seq", (("asg", "c", _bin(_V("c"), "+", ("int", 1))), _V("c")))))),
+                                                         ("call", _V("inc"), ()))), "e", ("neg", 1))))),
+    "loop": ("lam", ("x",), ("seq", (("decl", "k", ("int", 0)),
+                                     ("decl", "fs", ("for", "i", ("list", (("int", 1), ("int", 2), ("int", 3))), (), True,
+                                                     ("seq", (("asg", "k", _bin(_V("k"), "+", _V("i"))), ("freeze", ("lam", (), _bin(_V("k"), "+", _V("x")))))))),
+                                     ("for", "f", _V("fs"), (), True, ("call", _V("f"), ()))))),
+    "loop-var": ("lam", ("x",), ("seq", (("decl", "fs", ("for", "i", ("list", (("int", 1), ("int", 2))), (), True,
+                                                         ("freeze", ("lam", ("y",), _bin(_V("y"), "+", _bin(_V("i"), "*", ("int", 10))))))),
+                                         ("for", "f", _V("fs"), (), True, ("call", _V("f"), (_V("x"),)))))),
+}
 
 
 def subst_leaf(rng, e, make):
@@ -793,7 +848,16 @@ def gen_case(rng, idx):
         which = rng.choice(sorted(shapes))
         lam = ("lam", ("x",), shapes[which])
         kind = "scope-" + which
-    force_mut_a = kind in ("self-rhs", "conditional-declaration") or kind.startswith("scope-")
+    elif p < 0.27:
+        which = rng.choice(sorted(COND_SHAPES))
+        nm = "a" if ("a" in outer and rng.random() < 0.6) else "tq"
+        lam = ("lam", ("x",), COND_SHAPES[which](nm))
+        kind = "cond-decl-" + which
+    elif p < 0.30:
+        which = rng.choice(sorted(NESTED_FREEZE))
+        lam = NESTED_FREEZE[which]
+        kind = "nested-freeze-" + which
+    force_mut_a = kind in ("self-rhs", "conditional-declaration") or kind.startswith("scope-") or (kind.startswith("cond-decl") and "a" in outer)
     nargs = len(lam[1])
     pool = ARGS1 if nargs == 1 else ARGS2
     args = [pool[rng.randrange(len(pool))] for _ in range(3)]
